@@ -397,9 +397,13 @@ sys.exit(1 if bad else 0)
 def main(tier, seed):
     rep = Report(PID, tier, seed, "proof")
     rep.assumed_contract("getBH_level2 (object-oriented evaluation) is the canonical computation; its own correctness is C03-C06")
-    rep.assume("getBH_dict_level2 tiling: iterates the caller's sequences (symbolic instance count outside the generator): bounded numeric stand-in")
+    rep.assume("getBH_dict_level2 tiling is proved for rectangular inputs of every instance count (checks/c07_dict.py); ragged (object-dtype) inputs only in the bounded numeric stand-in")
     rep.explanation = "rank-table consistency exhaustively over the registry; call-equivalence of every method wrapper by sentinel objects; functional-vs-OO bounded"
+    from checks import c07_dict
+    from engine.par import run_parallel
+
     fails = rank_table(rep) + call_equivalence(rep)
+    fails += run_parallel(rep, [("dict-tiling", lambda r: c07_dict.run(r, tier))])
     runs, bad = native_functional(seed, tier)
     rep.standin("functional interface == object-oriented evaluation (numeric)", "every class x every subset of per-instance parameters x n in {1,3,4} (thorough: 1..4) x single/multiple observers",
                 runs, runs, "random parameter values; mixed lengths must be rejected", [dict(cls="Cuboid", n=3, per_instance=["dimension"])], failures=len(bad), exhaustive=True)
